@@ -3,6 +3,23 @@ and the Spec oracle for the decision order."""
 import itertools
 from gen import ribcommon as R
 
+def split_hops(rng, h):
+    """a segment list with exactly h hops (AS_SEQUENCE counts its length, AS_SET one, confederation
+    segments nothing), cut at random places"""
+    segs = []
+    while h > 0:
+        x = rng.random()
+        if x < 0.15:
+            segs.append((1, rng.choice([1, 2, 5, 64, 100]))); h -= 1
+        elif x < 0.25:
+            segs.append((rng.choice([3, 4]), rng.choice([1, 2, 64, 70])))
+        else:
+            n = min(h, rng.choice([1, 2, 3, 10, 63, 64, 65, 100, 128, 200, 255, 255]))
+            segs.append((2, n)); h -= n
+    if rng.random() < 0.2:
+        segs.insert(rng.randrange(len(segs) + 1), (rng.choice([3, 4]), rng.choice([1, 64, 255])))
+    return segs
+
 class Prop:
     pid = 'C02'
     props_file = 'Props/C02.v'
@@ -37,6 +54,21 @@ class Prop:
             cand = [('ins', srcs[1 + (i % 3)], 1, i // 3, 1, pool[i % 4], False, False, None) for i in range(4)]
             for perm in itertools.permutations(cand):
                 cases.append(dict(shard=0, addrs=[1, 2, 3], ctrs=[], evpn=False, ops=list(perm) + [('restale', False, 2), ('restale', True, 1)]))
+        # AS_PATH length duels: candidates that differ (or tie) only in the hop count, the counts
+        # close to each other and spread over segment structures of every shape (sequences below and
+        # above 64 and up to 255 ASes, sets, confederation segments, empty segments), so that the
+        # byte-level walk of Attribute::as_path_length decides the order
+        for k in range(60 if tier == 'quick' else 600):
+            srcs = R.sources(rng)
+            base = rng.choice([1, 3, 6, 30, 62, 64, 66, 80, 127, 129, 200, 254, 256, 300, 511, 700])
+            cand = []
+            for i in range(rng.choice([2, 3, 3, 4])):
+                h = max(0, base + rng.choice([-2, -1, -1, 0, 0, 1, 1, 2]))
+                a = R.mk_attr(100 + 2 * i + rng.choice([0, 1]), lp=100, segs=split_hops(rng, h), origin=0)
+                cand.append(('ins', srcs[1 + (i % 3)], 1, i // 3, 1, a, False, False, None))
+            rng.shuffle(cand)
+            tail = [('rem', c[1], 1, c[3], None) for c in cand[:rng.choice([0, 1])]]
+            cases.append(dict(shard=0, addrs=[1, 2, 3], ctrs=[], evpn=False, ops=cand + tail))
         return cases
 
     def run_impl(self, cases, tier):
